@@ -46,7 +46,10 @@ class Session:
         self.sibling = None
         if cfg.get("sibling"):
             sib = M.Network(name="sib")
+            perm = cfg.get("sib_perm") or {}
             for op in reversed(self.build_ops):
+                if op["op"] == "add_link" and op["l"] in perm:
+                    op = dict(op, l=perm[op["l"]])  # same graph shape, link objects on other edges
                 dyn.apply_build_op(sib, self.U, op)
             self.sibling = sib
         self.engines = {k: make_engine(k, cfg.get("garbage", "empty")) for k in ENG_KINDS}
@@ -56,7 +59,7 @@ class Session:
     # -- helpers --------------------------------------------------------------------------
     def init_for(self, U, op, kind):
         if kind == "numpy":
-            vals = dyn.gen_values(op["vals"], self.uspec, self.refs, op.get("neg", False))
+            vals = dyn.gen_values(op["vals"], self.uspec, self.refs, op.get("neg", False), op.get("edge", False))
             return dyn.numeric_init(U, vals, op.get("zero_d", False), op.get("alias"), share=U is self.U)
         if op.get("sym") == "caller":
             return dyn.symbolic_init(U, self.refs, kind.upper())
@@ -346,6 +349,8 @@ def gen_step(rng, cfg, kind=None, allow_fault=True, tier="quick"):
         if rng.random() < (0.5 if any(k.startswith("positive_init") for k in op["opts"]) else 0.05):
             op["neg"] = True
         op["zero_d"] = True if (merging and "delta" in op["opts"]) else rng.random() < 0.3
+        if rng.random() < 0.1:
+            op["edge"] = True
         if "alias" in cfg["enabled"] and rng.random() < 0.3:
             links = [r for r in cfg["refs"] if r[0] == "l"]
             r1 = rng.choice(links)
@@ -398,6 +403,11 @@ def generate(prop: str, run_seed: int, tier: str = "quick") -> dict:
         "garbage": rng.choice(["empty", "rand", "randn", 7.5]) if "garbage" in enabled else "empty",
         "numpy_only": bool(U.get("param_arrays")),
     }
+    if cfg["sibling"] and rng.random() < 0.5:
+        ls = [l for _, l, _ in topo["links"]]
+        sh = list(ls)
+        rng.shuffle(sh)
+        cfg["sib_perm"] = dict(zip(ls, sh))
     ops = []
     n = rng.randint(3, 9) if tier == "quick" else rng.randint(4, 14)
     for _ in range(n):
@@ -444,6 +454,8 @@ def simplify_op(op: dict):
         o = dict(op); del o["alias"]; yield o
     if op.get("neg"):
         o = dict(op); del o["neg"]; yield o
+    if op.get("edge"):
+        o = dict(op); del o["edge"]; yield o
     if op["op"] == "step":
         opts = op["opts"]
         for k in list(opts):
@@ -464,6 +476,8 @@ def simplify_trace(trace: dict):
         yield dict(trace, universe=u)
     if cfg.get("sibling"):
         yield dict(trace, cfg=dict(cfg, sibling=False))
+    if cfg.get("sib_perm"):
+        yield dict(trace, cfg=dict(cfg, sib_perm=None))
     if cfg.get("garbage") != "empty":
         yield dict(trace, cfg=dict(cfg, garbage="empty"))
 
